@@ -48,6 +48,9 @@ rule re2 { strings: $a = /(ab|ba){2,4}x?/ condition: #a >= 2 }
 rule h1 { condition: hash.checksum32(0, filesize) % 5 == 1 }
 rule h2 { condition: hash.crc32(0, filesize) % 3 == 0 }
 rule h3 { condition: hash.md5(0, filesize) == hash.md5(0, filesize) }
+rule h4 { condition: hash.sha256(0, filesize) matches /^[0-7]/ }
+rule h5 { condition: hash.md5(0, 8) == hash.md5(8, 8) or hash.md5(0, 9) matches /^[0-7]/ }
+rule h6 { condition: hash.sha1(2, 5) matches /[0-3]$/ }
 rule m1 { condition: math.entropy(0, filesize) > 4.0 }
 rule ex1 { condition: xi > 5 }
 rule ex2 { condition: xs contains "zz" }
@@ -86,7 +89,8 @@ def build_case(seed_cid):
     kinds = []
     slots = {}
     heavy = rng.random() < 0.08
-    order = ["pe", "elf", "text", "notext", "empty", "rep"] + (["dotnet"] if rng.random() < 0.3 else []) + \
+    # "textrev" has the size of "text" and other bytes: a digest cached for (offset, length) by an earlier scan is wrong for it
+    order = ["pe", "elf", "text", "textrev", "notext", "empty", "rep"] + (["dotnet"] if rng.random() < 0.3 else []) + \
             (["fib"] if rng.random() < 0.25 else []) + \
             (["pe64"] if rng.random() < 0.3 else []) + (["elf32"] if rng.random() < 0.3 else []) + (["xs"] if heavy else [])
     for i, k in enumerate(order):
@@ -94,7 +98,10 @@ def build_case(seed_cid):
         if k in FILES:
             lines.append("buffile %d %s%s" % (i, DATA, FILES[k]))
         elif k == "text":
-            lines.append("buf %d %s" % (i, hx(text_buffer(rng, True) + b"".join(s.sample(rng) for r in extra for s in r.strings))))
+            text_bytes = text_buffer(rng, True) + b"".join(s.sample(rng) for r in extra for s in r.strings)
+            lines.append("buf %d %s" % (i, hx(text_bytes)))
+        elif k == "textrev":
+            lines.append("buf %d %s" % (i, hx(bytes(reversed(text_bytes)))))
         elif k == "notext":
             lines.append("buf %d %s" % (i, hx(text_buffer(rng, False))))
         elif k == "empty":
